@@ -322,8 +322,29 @@ where
         }
     }
 
-    pub(crate) fn sending_state_changed(&mut self, peer_id: PeerId, state: SendingState) {
+    pub(crate) fn sending_state_changed(
+        &mut self,
+        peer_id: PeerId,
+        connection_id: ConnectionId,
+        state: SendingState,
+    ) {
         if let Some(peer) = self.peers.get_mut(&peer_id) {
+            // A transmission is tracked on one connection at a time. If it is tracked on
+            // another connection, then this report comes from a connection that was given
+            // up (i.e. `RECEIVE_REQUEST_TIMEOUT` was reached) and it must not overwrite
+            // the state of the current transmission.
+            match peer.sending_state {
+                SendingState::Requested(_, id)
+                | SendingState::RequestReceived(_, id)
+                | SendingState::Sending(_, id)
+                | SendingState::Failed(id)
+                    if id != connection_id =>
+                {
+                    return;
+                }
+                _ => {}
+            }
+
             peer.sending_state = state;
         }
     }
